@@ -15,7 +15,8 @@ from ..common import safe_repr
 from ..runner import Acc, parallel
 
 E = Ellipsis
-LEAVES = [1, "x.y", [1], schema.int]
+# leaves are handed out in this order: `...` as a LEAF value (under an ordinary key) is just a value
+LEAVES = [..., 1, schema.int, "x.y", [1], None]
 KEYS = ["a", "b", ""]
 KEYS_T = ["a", "b", "", "a b"]
 SEPS = [".", "__", "/"]
